@@ -537,6 +537,32 @@ def proxyCall (pl : Placement) (P : Pickle V W) (X : Excs V) (mode : Mode) (para
   | .sameContext => localCall X mode params srv o stubs futureAddr objAddr reqId attr args kwargs token
   | .peerContext => peerCall P X mode params cli srv cc sc o stubs futureAddr objAddr reqId attr args kwargs token
 
+/-! ## limits that live in the source: message size, queue bounds -/
+
+/-- one comparison against `MAX_MESSAGE_SIZE` as it stands in the source: the message is refused iff
+`offset + pickledSize > limit` (`strict`) resp. `≥ limit` -/
+structure SizeCheck where
+  site : String
+  sender : Bool
+  offset : Nat
+  strict : Bool
+  deriving DecidableEq, Repr
+
+def SizeCheck.refuses (c : SizeCheck) (limit size : Nat) : Bool :=
+  if c.strict then decide (c.offset + size > limit) else decide (c.offset + size ≥ limit)
+
+/-- a queue constructed on the path of a request or reply; `bound = none`: constructed without `maxlen`/`maxsize` -/
+structure QueueDecl where
+  site : String
+  bound : Option Nat
+  deriving DecidableEq, Repr
+
+/-- `deque.append` for `deque()` / `deque(maxlen=m)`: the request queue of `_RpcThread` -/
+def fifoPush (bound : Option Nat) (q : List α) (r : α) : List α :=
+  match bound with
+  | none => q ++ [r]
+  | some m => (q ++ [r]).drop ((q ++ [r]).length - m)
+
 /-! ## the lock token a proxy forwards -/
 
 /-- `_lock_token` of a `QMI_RpcProxy` and of its `rpc_nonblocking` companion -/
